@@ -430,6 +430,17 @@ def run_load(mi: int, tree):
     return 'ok', v
 
 
+def run_load_all(mi: int, tree):
+    """As run_load, through yaml.load_all and the Loader class."""
+    from vlib.common import load_tree_all
+    zoo.reset()
+    try:
+        v = load_tree_all(loader_for(mi), tree)
+    except Exception as e:   # noqa
+        return 'raise', e
+    return 'ok', v
+
+
 def explore(sl: int, site: int, mut: int, rsel: int, tag: str, vsel: int,
             ksel: int, lim, check, before=None):
     """One solver-chosen single-point mutant of the base document selected by
